@@ -77,8 +77,8 @@ def run {Hash : Type} [DecidableEq Hash] (H : Bytes → Hash) (p : Piece Hash) (
     (failAt : Option Nat) : RunResult :=
   let hashOK := verifyHash H p buf
   if hashOK then
-    let (st, ws) := writeSecs failAt p.secs buf 0 []
-    { hashOK := true, status := st, writes := ws }
+    let r := writeSecs failAt p.secs buf 0 []
+    { hashOK := true, status := r.1, writes := r.2 }
   else { hashOK := false, status := .ok, writes := [] }
 
 /-! ### Specification of the section writes -/
